@@ -359,6 +359,68 @@ fn det_op(d: &mut Det, line: &str, ex: &mut Exec) -> String {
 }
 
 // ---------------------------------------------------------------------------------------------
+// one-off experiment (not part of the generated cases): `cancelprobe <iour|poll>` in a replay file.
+// Side observation of notes/C03.md: a remote `cancel()` that is coalesced on a waker thread spinning on the
+// full queue, which then bails out on `is_cancelled()`: the task is cancelled + SCHEDULED but in no queue.
+// ---------------------------------------------------------------------------------------------
+
+struct DropFlag {
+    inner: Parked,
+    dropped: Arc<AtomicBool>,
+}
+
+impl Future for DropFlag {
+    type Output = ();
+
+    fn poll(mut self: Pin<&mut Self>, cx: &mut Context<'_>) -> Poll<()> {
+        Pin::new(&mut self.inner).poll(cx)
+    }
+}
+
+impl Drop for DropFlag {
+    fn drop(&mut self) {
+        self.dropped.store(true, SeqCst);
+    }
+}
+
+fn cancel_probe(drv: DriverType) -> String {
+    let Ok(b) = build(drv, 1, 61) else { return "probe skipped".into() };
+    let w = World::new(3);
+    let dropped = Arc::new(AtomicBool::new(false));
+    b.rt.enter(|| b.rt.spawn(Parked { idx: 0, w: w.clone() })).detach();
+    let handle = b.rt.enter(|| b.rt.spawn(DropFlag { inner: Parked { idx: 1, w: w.clone() }, dropped: dropped.clone() }));
+    while b.rt.enter(|| b.rt.run()) {}
+    let wa = w.slots[0].waker.lock().unwrap().clone().unwrap();
+    let wb = w.slots[1].waker.lock().unwrap().clone().unwrap();
+    // thread 1: task 0 into the queue (capacity 1: full)
+    std::thread::spawn(move || wa.wake_by_ref()).join().unwrap();
+    // thread 2: wake task 1: SCHEDULED, reservation, queue full, spins
+    let t2 = std::thread::spawn(move || wb.wake_by_ref());
+    std::thread::sleep(Duration::from_millis(100));
+    let spinning = !t2.is_finished();
+    // thread 3: remote cancel (JoinHandle::drop = Task::cancel(true) = schedule() + set_cancelled)
+    let t3 = std::thread::spawn(move || drop(handle));
+    let t0 = Instant::now();
+    while (!t3.is_finished() || !t2.is_finished()) && t0.elapsed() < Duration::from_secs(2) {
+        std::thread::yield_now();
+    }
+    let both_returned = t2.is_finished() && t3.is_finished();
+    // the runtime now runs for a while
+    for _ in 0..50 {
+        b.rt.enter(|| b.rt.run());
+        b.rt.poll_with(Some(Duration::ZERO));
+    }
+    let before = dropped.load(SeqCst);
+    let polls1 = w.slots[1].polls.load(SeqCst);
+    w.stop.store(true, SeqCst);
+    drop(b);
+    let after = dropped.load(SeqCst);
+    format!(
+        "probe spinning={spinning} both_returned={both_returned} future_dropped_after_50_ticks={before} polls_of_task1={polls1} dropped_after_runtime_drop={after}"
+    )
+}
+
+// ---------------------------------------------------------------------------------------------
 // (b) stress
 // ---------------------------------------------------------------------------------------------
 
@@ -670,6 +732,15 @@ fn exec(case: &Case) -> Exec {
                     _ => "bad-op".to_string(),
                 }
             }
+            Some("cancelprobe") if toks.len() == 2 => match drv_of(toks[1]) {
+                Some(d) => {
+                    let r = cancel_probe(d);
+                    eprintln!("{r}");
+                    ex.tag(r);
+                    "probe done".to_string()
+                }
+                None => "bad-op".to_string(),
+            },
             Some("stress") => {
                 match parse_stress(&toks) {
                     Some(cfg) => {
